@@ -111,5 +111,7 @@ addenda = {
     "C12": "Added: the HTTP backend's Put either hands the reader to an uploader (exactly one channel send containing it) or closes it (exactly one Close) - a full upload queue leaks nothing.",
     "C13": "Added: startGrpcServer puts the mTLS interceptors (built with the configured allow_unauthenticated_reads) into both interceptor chains whenever a client CA is configured, and the basic-auth interceptors of a GrpcBasicAuth "
            "built from the htpasswd secrets and the same option whenever an htpasswd file is configured.",
-    "C18": "Added: GetCapabilities advertises exactly the configured limit; SpliceBlob refuses sizes above it before anything is stored; the HTTP handler refuses CAS/raw uploads above it; startGrpcServer hands the configured max_blob_size to the gRPC server.",
+    "C18": "Added: GetCapabilities advertises exactly the configured limit; SpliceBlob refuses sizes above it before anything is stored; the HTTP handler refuses CAS/raw uploads above it; startGrpcServer hands the configured max_blob_size to the gRPC server; main.run passes max_blob_size and max_proxy_blob_size, unswapped, to disk.WithMaxBlobSize / WithProxyMaxBlobSize, whose function literals install exactly "
+           "the given positive value and refuse others.",
+    "C19": "Added: the disk options refuse non-positive blob limits and storage modes other than the two published ones, and main.run hands dir, storage mode and zstd implementation to the cache as configured.",
 }
